@@ -48,6 +48,7 @@ fn main() {
         }
         "check" => { std::process::exit(master::check(&args[2], tier, &args)); }
         "replay" => { std::process::exit(master::replay(&args[2])); }
+        "minimise" => { std::process::exit(master::minimise_file(&args[2], arg(&args, "--secs").and_then(|s| s.parse().ok()).unwrap_or(240))); }
         _ => { eprintln!("usage: nomt-sim check <Cxx> [--tier quick|thorough] | replay <file> | run ... | gen ..."); std::process::exit(2); }
     }
 }
